@@ -396,6 +396,12 @@ Definition f32_fr (sig : N) (e : Z) : option N :=
 Definition f64_fr_alg (sig : N) (e : Z) : option N :=
   let f := parse_concise_float F64 sig e in if N.eqb f F64_INFINITY_BITS then None else Some f.
 
+(* de.rs negated_u64_as_float (a negative integer literal with 2^63 < |n| <= u64::MAX leaves parse_number as a float):
+   `-(significand as f32) as f64` when single_precision (one rounding, to the target), `-(significand as f64)` otherwise;
+   given as the bit pattern of the target type *)
+Definition negated_u64_as_float_bits (k : fkind) (significand : N) : N :=
+  (f_cast k significand + match k with F64 => 9223372036854775808 | F32 => 2147483648 end)%N.
+
 (* the binary32 oracle: same construction as FloatB.rne_decimal *)
 Definition rne_decimal32 (m : Z) (e : Z) : b32 :=
   if m <=? 0 then B754_zero false
